@@ -321,3 +321,7 @@ def run(F, R, tier):
         for b in insb:
             asserted = any("assert" in (n.get("mac") or []) for n in b["_nodes"])
             R.ob("C16-d", "%s::insert asserts that nothing is replaced" % p, asserted, "insert no longer asserts `.is_none()`", b["file"])
+
+    # ---------------- C16-e ------------------------------------------------
+    from . import c09
+    c09.prefer_types_sites(F, R, tag="C16-e")
